@@ -227,7 +227,7 @@ def make_self(cls, repo, m, n):
 
 def run_eval(cls, repo, m, n, box):
     fn = cls.methods["evaluate"]
-    it = Interp(module_functions={})
+    it = Interp(module_functions=dict(cls.module.functions))
     selfo = make_self(cls, repo, m, n)
     # methods of the class callable as self.f(...)
     env = {func_params(fn)[0]: selfo, func_params(fn)[1]: Obj(vector=list(box))}
@@ -244,7 +244,7 @@ class MInterp(Interp):
     """Interp that can call methods of the benchmark class on `self`"""
 
     def __init__(self, cls, selfo):
-        super().__init__({})
+        super().__init__(dict(cls.module.functions))
         self.cls, self.selfo = cls, selfo
 
     def e_Call(self, n, env):
@@ -343,13 +343,24 @@ def distance_range(ctx, repo, cname, info):
     if idxs:
         lp, rb, idx = idxs[-1]
         v = lp.target.id
-        want = poly.parse("len(%s) - %s - 1" % (xn, v))
-        e = poly.equal(poly.parse(idx), want)
-        start_ok = rb[0] is None or text(rb[0]) == "0"
-        ok = bool(e) and start_ok
-        detail = "sum over x[len(x)-i-1], i in [0, %s): the last %s variables" % (text(rb[1]), text(rb[1]))
-        if not ok:
-            detail = "the distance function reads x[%s] for i in %s, not the last k variables" % (idx, text(lp.iter))
+        try:
+            start = rb[0] if rb[0] is not None else poly.parse("0")
+            e_first = poly.norm(poly.parse(idx), {v: start})
+            e_last = poly.norm(poly.parse(idx), {v: ast.BinOp(left=rb[1], op=ast.Sub(), right=ast.Constant(value=1))})
+            slope = poly.norm(poly.parse(idx), {v: poly.parse("1")}) - poly.norm(poly.parse(idx), {v: poly.parse("0")})
+            count = poly.norm(rb[1]) - poly.norm(start)
+            top = poly.norm(poly.parse("len(%s) - 1" % xn))
+            if rb[2] is not None or not slope.is_const() or abs(slope.const()) != 1:
+                ok = None
+            else:
+                hi_, lo_ = (e_first, e_last) if slope.const() < 0 else (e_last, e_first)
+                # the indices read are the contiguous block [top - count + 1, top]
+                ok = bool(hi_ == top and (hi_ - lo_) == count - poly.norm(poly.parse("1")))
+                detail = "sum over the last %s variables (indices %s down to %s)" % (poly.key_of(count), poly.key_of(hi_), poly.key_of(lo_))
+                if not ok:
+                    detail = "the distance function reads x[%s] for %s in %s, not the last k variables" % (idx, v, text(lp.iter))
+        except poly.NotPolynomial:
+            ok = None
     elif slices:
         sl = slices[0].slice
         consts = {}
